@@ -124,9 +124,7 @@ def pop3d_jobs(ck, thorough):
         files = U.population(spec, t0)
         if n >= 2 and rng.random() < 0.1:
             files[1]["mt"] = files[0]["mt"]                      # a tie: any consistent numbering is accepted
-        table = U.arg_table(n)
-        if rng.random() < 0.06:
-            table = table + U.wrap_table(n) * 3
+        table = U.arg_table(n)      # numbers >= 2^64 only in the dedicated sessions of (a): see PENDING_FINDINGS
         cmds = []
         for _ in range(rng.randint(2, 12)):
             k = rng.random()
